@@ -279,5 +279,26 @@ func RemoveAll(def Definition, repo repository.ClockedRepo) error {
 			return err
 		}
 	}
+	return removeRemoteTrackingRefs(def.Namespace, repo)
+}
+
+// removeRemoteTrackingRefs deletes what is left under refs/remotes/<remote>/<namespace>/ for every
+// configured remote: entities that were fetched but never merged have no local ref to go by.
+func removeRemoteTrackingRefs(namespace string, repo repository.ClockedRepo) error {
+	remotes, err := repo.GetRemotes()
+	if err != nil {
+		return err
+	}
+	for remote := range remotes {
+		refs, err := repo.ListRefs(fmt.Sprintf("refs/remotes/%s/%s/", remote, namespace))
+		if err != nil {
+			return err
+		}
+		for _, ref := range refs {
+			if err := repo.RemoveRef(ref); err != nil {
+				return err
+			}
+		}
+	}
 	return nil
 }
